@@ -444,7 +444,15 @@ where
     fn create<T: ObjectWrite>(&mut self, obj: T) -> Result<RcRef<T>> {
         let id = self.refs.len() as u64;
         self.refs.push(XRef::Promised);
-        let primitive = obj.to_primitive(self)?;
+        let primitive = match obj.to_primitive(self) {
+            Ok(p) => p,
+            Err(e) => {
+                // nothing will ever be written under the reserved number: it must not stay promised,
+                // or every later save fails
+                self.refs.set(id, XRef::Invalid);
+                return Err(e);
+            }
+        };
         self.changes.insert(id, (primitive, 0));
         let rc = Shared::new(obj);
         let r = PlainRef { id, gen: 0 };
